@@ -1124,6 +1124,10 @@ M('C07', 'entanglement_spectrum: boundary leg not conjugated (round-4 seed a)', 
   "                    leg = self._B[i - 1].get_leg('vR').conj()\n", "                    leg = self._B[i - 1].get_leg('vR')\n",
   'LEG-side-direction')
 
+M('C07', 'from_product_state: permutation flag initialised once before the loop (round-4 seed b)', MPS,
+  "        for p_st, site in zip(p_state, sites):\n            perm = permute\n",
+  "        perm = permute\n        for p_st, site in zip(p_state, sites):\n", 'LOOP-carried-flag')
+
 # ---------------------------------------------------------------- C16 / C19
 M('C16', 'GMRES restart: relative residual norm used for normalisation (round-3 seed b)', KRY,
   """        self.total_error.append([npc.norm(self.rs[-1]) / self.b_norm])
